@@ -116,16 +116,23 @@ def pieces(seq, cuts, every):
 def chunk(r):
     e, cls = r["enc"], r["cls"]
     text = chunk_text(r)
+    noforce = cls.endswith("-noforce")
+    if noforce:
+        cls = cls[:-len("-noforce")]
+        if not (e in ("utf-8-sig", "utf-16", "utf-32") or r["text"] == "rule"):
+            return None      # nothing explicit in the bytes: the given encoding decides (covered by the round-trip rows)
+    given = e if not noforce else ("koi8-r" if e == "iso-8859-1" else "iso-8859-1")
+    kw = {"force": False} if noforce else {}
     try:
         if cls in ("incdec", "reader"):
             data = cc.encode(text, encoding=e)[0]
             try:
-                oneshot = cc.decode(data, encoding=e)[0]
+                oneshot = cc.decode(data, encoding=given, **kw)[0]
             except Exception:
                 return {"out": "ok", "oneshot": [], "concat": [], "oneshot_error": True}
             ps = pieces(data, r["cuts"], r["every"])
             if cls == "incdec":
-                d = codecs.getincrementaldecoder("css")(encoding=e)
+                d = codecs.getincrementaldecoder("css")(encoding=given, **kw)
                 out = "".join(d.decode(p, False) for p in ps) + d.decode(b"", True)
             else:
                 class Feeder(io.RawIOBase):      # a stream that hands out exactly the scheduled chunks
@@ -137,7 +144,7 @@ def chunk(r):
 
                     def readable(self):
                         return True
-                rd = codecs.getreader("css")(Feeder(ps), encoding=e)
+                rd = codecs.getreader("css")(Feeder(ps), encoding=given, **kw)
                 out, n = "", 0
                 while True:
                     s = rd.read()
